@@ -538,8 +538,20 @@ static inline struct ubuf *ubuf_block_splice(struct ubuf *ubuf, int offset,
                                              int size)
 {
     struct ubuf *new_ubuf;
-    if (unlikely(ubuf->mgr->signature != UBUF_ALLOC_BLOCK ||
-                 (ubuf = ubuf_block_get(ubuf, &offset, &size)) == NULL ||
+    if (unlikely(ubuf->mgr->signature != UBUF_ALLOC_BLOCK))
+        return NULL;
+
+    struct ubuf_block *head_block = ubuf_block_from_ubuf(ubuf);
+    if (offset < 0)
+        offset += head_block->total_size;
+    if (size == -1)
+        size = head_block->total_size - offset;
+    if (unlikely(offset < 0 || size < 0 ||
+                 (size_t)offset > head_block->total_size ||
+                 (size_t)size > head_block->total_size - offset))
+        return NULL;
+
+    if (unlikely((ubuf = ubuf_block_get(ubuf, &offset, &size)) == NULL ||
                  !ubase_check(ubuf_control(ubuf, UBUF_SPLICE_BLOCK,
                                            &new_ubuf, offset, size))))
         return NULL;
